@@ -60,6 +60,7 @@ inductive Action where
   | output (id : String) (v : Val)
   | outputSkipped (id : String) (v : Val)     -- a second output node became ready: "Workflow already done"
   | errorSent (k : ErrKind)
+  | errorDropped (k : ErrKind)                -- the error buffer was full: logged only
   | cancel
   | spawnDetector (retries : Nat)
   | panic (site : PanicSite)
@@ -198,17 +199,11 @@ def emit (r : R) (a : Action) : R := (r.1, r.2 ++ [a])
 
 def die (r : R) (a : Action) : R := ({ r.1 with dead := true }, r.2 ++ [a])
 
-/-- `l.recentErrors <- err` while holding the lock: blocks forever when the buffer is full. -/
+/-- `l.reportError(err)`: a non-blocking send into the bounded error channel; dropped (and logged) when full. -/
 def sendErr (cap : Nat) (r : R) (k : ErrKind) : R :=
   if r.1.dead then r
   else if r.1.errs < cap then ({ r.1 with errs := r.1.errs + 1 }, r.2 ++ [.errorSent k])
-  else die r .stuck
-
-/-- `select { case l.recentErrors <- err: default: }`: dropped when the buffer is full -/
-def trySendErr (cap : Nat) (r : R) (k : ErrKind) : R :=
-  if r.1.dead then r
-  else if r.1.errs < cap then ({ r.1 with errs := r.1.errs + 1 }, r.2 ++ [.errorSent k])
-  else r
+  else (r.1, r.2 ++ [.errorDropped k])
 
 def doCancel (r : R) : R :=
   if r.1.dead then r else ({ r.1 with cancelled := true }, r.2 ++ [.cancel])
@@ -286,8 +281,8 @@ def processNode (P : Prepared) (fns : Fns) (notify : R → R) (r : R) (nodeId : 
     | some inData =>
       match resolveIn fns r.1.dag r.1.data inData with
       | .error _ =>
-        -- reported through the error channel with a non-blocking send, then cancel and `return`
-        (doCancel (trySendErr P.errCap r .evalFailed), true)
+        -- reported through the error channel, then cancel and `return`
+        (doCancel (sendErr P.errCap r .evalFailed), true)
       | .ok v =>
         match item.kind with
         | .stage =>
